@@ -90,7 +90,8 @@ func RemovePackage(pkg *Package) {
 				break
 			}
 		}
-		for _, u := range pkg.Uses {
+		// Unuse takes the package off the list that is walked here.
+		for _, u := range append([]*Package(nil), pkg.Uses...) {
 			pkg.Unuse(u)
 		}
 		pkg.Name = ""
